@@ -40,15 +40,15 @@ type LockCfg struct {
 	SlashDown   string     `json:"slash_down"`
 	SlashDouble string     `json:"slash_double"`
 	// Start > 1: the chain's initial height (heights around 64 halving intervals and far beyond are of interest)
-	Start       int64      `json:"start,omitempty"`
-	UnlockSec   int        `json:"unlock_sec"`
-	ExitSec     int        `json:"exit_sec"`
-	JailSec     int        `json:"jail_sec"`
-	Halving     int64      `json:"halving"`
-	InitReward  int64      `json:"init_reward"`
-	Remain      string     `json:"remain"`
-	EvBlocks    int64      `json:"ev_blocks"`
-	EvSec       int        `json:"ev_sec"`
+	Start      int64  `json:"start,omitempty"`
+	UnlockSec  int    `json:"unlock_sec"`
+	ExitSec    int    `json:"exit_sec"`
+	JailSec    int    `json:"jail_sec"`
+	Halving    int64  `json:"halving"`
+	InitReward int64  `json:"init_reward"`
+	Remain     string `json:"remain"`
+	EvBlocks   int64  `json:"ev_blocks"`
+	EvSec      int    `json:"ev_sec"`
 }
 
 type EvSpec struct {
@@ -168,10 +168,10 @@ type mValidator struct {
 	missed   int64
 	jailedTo time.Time
 	// bookkeeping for temporal checks
-	punishedAt  int   // block index of the last demotion/tombstone, -1 if none
-	opsAfter    int   // operations aimed at it since
-	tombstoned  bool
-	slashCount  int
+	punishedAt int // block index of the last demotion/tombstone, -1 if none
+	opsAfter   int // operations aimed at it since
+	tombstoned bool
+	slashCount int
 }
 
 type mUnlock struct {
@@ -186,8 +186,8 @@ type mUnlock struct {
 }
 
 type mReward struct {
-	id  uint64
-	v   int
+	id uint64
+	v  int
 }
 
 type lockModel struct {
@@ -338,11 +338,11 @@ type lockWorld struct {
 	// recorded known finding 'voting power is not bounded'
 	powerBeyondCap bool
 	reimports      int
-	sim   *world.Sim
-	m     *lockModel
-	obs   *lockingtypes.GenesisState // latest export
-	prev  *lockingtypes.GenesisState
-	bi    int // block index in the case
+	sim            *world.Sim
+	m              *lockModel
+	obs            *lockingtypes.GenesisState // latest export
+	prev           *lockingtypes.GenesisState
+	bi             int // block index in the case
 	// per-block facts for the property checkers
 	ethOK       bool
 	resp        *world.StepResult
@@ -857,7 +857,6 @@ func fmtHold(h map[string]*big.Int) string {
 	bz, _ := json.Marshal(h)
 	return string(bz)
 }
-
 
 // touchesPowerCap reports whether, with the requests of lb, some validator's exact voting power
 // (sum over tokens of weight*amount/1e18, computed without uint64 wrap-around) could exceed
